@@ -63,6 +63,7 @@ pub fn probe_segment(trace: &[TEv]) -> Option<Vec<String>>
             {
                 Hook::CommandApply{ kind, target, source, data } =>
                     out.push(format!("cmd {:?} {} {:?} {:?}", kind, nn(*target, &mut emap), source.map(|s| nn(s, &mut emap)), data.map(|d| nn(d, &mut emap)))),
+                Hook::Gc => out.push("gc".to_string()),
                 Hook::Scheduled{ kind, target, source } => out.push(format!("sched {:?} {} {}", kind, nn(*target, &mut emap), nn(*source, &mut emap))),
                 Hook::RunnerEnter{ target, counter } => out.push(format!("enter {} {}", nn(*target, &mut emap), counter)),
                 Hook::RunnerDecision{ target, decision } => out.push(format!("decide {} {:?}", nn(*target, &mut emap), decision)),
